@@ -33,6 +33,21 @@ fn main() {
                 println!("{} {} quick={} thorough={}", p.id(), p.level(), p.size(Tier::Quick), p.size(Tier::Thorough));
             }
         }
+        "tree" => {
+            // debugging aid: print the parse result of a text (\n in the argument = newline)
+            let text = args[2].replace("\\n", "\n");
+            match subj::lex_g(&text).and_then(|t| subj::parse_g(&t)) {
+                Err(f) => println!("rejected: {:?}", f),
+                Ok(pr) => {
+                    println!("root {}", pr.get_root());
+                    for (i, n) in pr.get_nodes().iter().enumerate() {
+                        println!("{:>3} {:?} parent={:?} left={:?} right={:?} tok={:?}", i, n.get_definition(), n.get_parent(), n.get_left(), n.get_right(), n.get_lex_token().get_text());
+                    }
+                    let o = props::pipeline::run_text(&text, true);
+                    println!("c04={:?} cyclic={} accepted={} stage_fail={:?} c05={:?}", o.c04.map(|m| m.0), o.cyclic, o.accepted, o.stage_fail, o.c05.map(|m| (m.0, m.1 .0)));
+                }
+            }
+        }
         "describe" => {
             let prop = props::find(&args[2]).unwrap_or_else(|| usage());
             let tier = Tier::parse(&args[3]).unwrap_or_else(|| usage());
